@@ -70,7 +70,9 @@ pub fn run(ctx: &mut Ctx) {
         for k in mdl_full.as_object().unwrap().keys() { if !crate::c19::MDL_MANDATORY_PUB.contains(&k.as_str()) && rng.gen_bool(0.35) { mdl_j.as_object_mut().unwrap().remove(k); } }
         if mdl_j.get("issuing_jurisdiction").is_some() && mdl_j.get("issuing_country").is_none() { mdl_j.as_object_mut().unwrap().remove("issuing_jurisdiction"); }
         for n in [16u32, 18, 21, 25, 65, 99] { if rng.gen_bool(0.4) { mdl_j.as_object_mut().unwrap().insert(format!("age_over_{n:02}"), json!(rng.gen_bool(0.5))); } }
-        let with_aamva = rng.gen_bool(0.6);
+        // odd sessions hold `sex` in BOTH namespaces (see the shared-identifier rounds below)
+        if si % 2 == 1 && mdl_j.get("sex").is_none() { mdl_j.as_object_mut().unwrap().insert("sex".into(), json!(1)); }
+        let with_aamva = rng.gen_bool(0.6) || si % 2 == 1;
         let mut issued: BTreeMap<String, BTreeMap<String, Value>> = BTreeMap::new();
         issued.insert(NS.into(), OrgIso1801351::from_json(&mdl_j).expect("base record").to_ns_map());
         if with_aamva { let mut a = aamva_full.clone(); for k in aamva_full.as_object().unwrap().keys() { if !crate::c19::AAMVA_MANDATORY_PUB.contains(&k.as_str()) && rng.gen_bool(0.35) { a.as_object_mut().unwrap().remove(k); } }
@@ -109,6 +111,15 @@ pub fn run(ctx: &mut Ctx) {
                 if ns == AAMVA && style == 0 { continue; }
                 if rng.gen_bool(if style == 1 { 1.0 } else { 0.45 }) { requested.entry(ns.clone()).or_default().push(e.clone()); }
                 if rng.gen_bool(if style == 2 { 1.0 } else { 0.7 }) { permitted.entry(ns.clone()).or_default().push(e.clone()); }
+            }
+            // one identifier held in two namespaces: asked for in one of them only but permitted in both (si % 4 == 1), or asked for
+            // and permitted in both (si % 4 == 3) - each namespace is answered on its own
+            if si % 2 == 1 && round == 0 {
+                for m in [&mut requested, &mut permitted] { for v in m.values_mut() { v.retain(|e| e != "sex"); } }
+                requested.entry(NS.into()).or_default().push("sex".into());
+                if si % 4 == 3 { requested.entry(AAMVA.into()).or_default().push("sex".into()); }
+                permitted.entry(NS.into()).or_default().push("sex".into()); permitted.entry(AAMVA.into()).or_default().push("sex".into());
+                if si % 4 == 1 { requested.entry(AAMVA.into()).or_default().push("organ_donor".into()); }
             }
             requested.entry(NS.into()).or_default().push("not_held_element".into());
             if rng.gen_bool(0.5) { permitted.entry(NS.into()).or_default().push("not_held_element".into()); }
